@@ -7,6 +7,7 @@ import (
 	"database/sql"
 	"database/sql/driver"
 	"errors"
+	"fmt"
 	"io"
 	"math/big"
 
@@ -43,11 +44,38 @@ type conn struct {
 func (c *conn) Prepare(q string) (driver.Stmt, error) { return &stmt{c: c, q: q}, nil }
 func (c *conn) Close() error                           { c.s.Close(); return nil }
 func (c *conn) Begin() (driver.Tx, error)              { return c.BeginTx(context.Background(), driver.TxOptions{}) }
-func (c *conn) BeginTx(ctx context.Context, _ driver.TxOptions) (driver.Tx, error) {
+// BeginTx honours sql.TxOptions the way the pgx stdlib driver does (github.com/jackc/pgx/v5/stdlib Conn.BeginTx): the options become
+// the text of the BEGIN statement ("begin isolation level repeatable read read only"), which pgsem then parses like any other
+// statement.  LevelDefault / LevelReadCommitted / LevelReadUncommitted -> READ COMMITTED (13.2: Read Uncommitted behaves like Read
+// Committed); LevelRepeatableRead / LevelSnapshot -> REPEATABLE READ (13.2.2); LevelSerializable -> refused loudly: pgsem does not
+// model SERIALIZABLE (13.2.3), and running such a transaction at a weaker level would silently hide what the code asked for;
+// LevelWriteCommitted / LevelLinearizable -> "unsupported isolation", as pgx answers.  ReadOnly -> READ ONLY access mode.
+func (c *conn) BeginTx(ctx context.Context, opts driver.TxOptions) (driver.Tx, error) {
 	if err := ctx.Err(); err != nil {
 		return nil, err
 	}
-	if _, err := c.s.Exec("BEGIN"); err != nil {
+	q := "BEGIN"
+	switch sql.IsolationLevel(opts.Isolation) {
+	case sql.LevelDefault:
+	case sql.LevelReadUncommitted:
+		q = "begin isolation level read uncommitted"
+	case sql.LevelReadCommitted:
+		q = "begin isolation level read committed"
+	case sql.LevelRepeatableRead, sql.LevelSnapshot:
+		q = "begin isolation level repeatable read"
+	case sql.LevelSerializable:
+		c.s.db.noteRefusedIsolation()
+		return nil, fmt.Errorf("pgsem: BeginTx asked for isolation level %s: pgsem does not model SERIALIZABLE (PostgreSQL 13.2.3); refusing instead of silently running the transaction at a weaker level (broken correspondence)", sql.IsolationLevel(opts.Isolation))
+	default:
+		return nil, fmt.Errorf("unsupported isolation: %v", sql.IsolationLevel(opts.Isolation))
+	}
+	if opts.ReadOnly {
+		if q == "BEGIN" {
+			q = "begin"
+		}
+		q += " read only"
+	}
+	if _, err := c.s.Exec(q); err != nil {
 		return nil, wrapErr(err)
 	}
 	return &tx{c: c}, nil
